@@ -76,7 +76,7 @@ class Interp:
         s.mod = mod; s.dom = dom; s.solver = z3.Solver(); s.pc = []; s.decisions = list(decisions or []); s.taken = []
         s.st = stats or Stats(); s.viol = []; s.regions = []; s.globals = {}; s.rcnt = 0; s.bases = {}
         s.notes = []; s.val_cache = {}; s.fma_fused = '+fma' in mod.target_features
-        s.heap_calls = []; s.depth = 0; s.name_ite = False
+        s.heap_calls = []; s.depth = 0; s.name_ite = False; s.pc_gen = 0
         for c in (pc or []): s.assume(c)
 
     # ------------------------------------------------------------ solver helpers
@@ -84,7 +84,7 @@ class Interp:
         if isinstance(c, int):
             if not c: raise PathEnd('infeasible')
             return
-        s.pc.append(c); s.solver.add(c); s.val_cache.clear()
+        s.pc.append(c); s.solver.add(c); s.pc_gen += 1   # cached value sets stay valid as supersets
 
     def feasible(s, c):
         if isinstance(c, int): return bool(c)
@@ -104,7 +104,9 @@ class Interp:
         """all values a BV term can take under the path condition"""
         if isinstance(t, int): return [t]
         key = t.get_id()
-        if key in s.val_cache: return s.val_cache[key]
+        if key in s.val_cache:
+            t0, vals = s.val_cache[key]
+            if t0.eq(t): return vals          # superset of the currently feasible values (the path condition only grows)
         import time
         t0 = time.time(); vals = []
         s.solver.push()
@@ -117,7 +119,7 @@ class Interp:
             if len(vals) > limit: s.solver.pop(); raise EncodingError('too many values for symbolic term')
             s.solver.add(t != v)
         s.solver.pop(); s.st.solver_s += time.time() - t0
-        vals.sort(); s.val_cache[key] = vals
+        vals.sort(); s.val_cache[key] = (t, vals)     # holding t keeps its AST id from being recycled
         return vals
 
     def concretize(s, t):
@@ -661,6 +663,7 @@ class Interp:
             sv = sgn(v, 64)
             if sv < 0 or sv + sz > r.size:
                 m = s.model_for(bv(off, 64) == v)
+                if m is None: continue       # stale cached value, no longer feasible
                 s.viol.append(MemViolation('oob', f'{what} of {sz} bytes at symbolic offset; offset {sv} of {r.name} (size {r.size}) is reachable', m, list(s.pc)))
                 s.assume(bv(off, 64) != v)
             else:
